@@ -71,8 +71,17 @@ type world struct {
 	stuck  map[int]bool
 	errInj error
 	nsteps int
-	dir    *directed // non-nil: outcomes and hook bodies follow a model trace (directed.go)
+	dir    *directed     // non-nil: outcomes and hook bodies follow a model trace (directed.go)
+	t0     time.Time     // origin of the clock readings logged in DL tokens
+	skew   time.Duration // the clock handed to the runner = system clock + skew
 }
+
+// The clock.Clock handed to the runner functions is deliberately NOT the system clock in three of
+// four worlds: what it returns only feeds Set{Receive,Transmit}Time; deadlines handed to the frame
+// transmitter have to come from the system clock at the moment of the call.
+var worldSeq int
+
+var clockSkews = []time.Duration{0, -time.Hour, time.Hour, -3 * time.Millisecond}
 
 func newWorld() *world {
 	w := &world{
@@ -81,7 +90,15 @@ func newWorld() *world {
 		parked: map[int]bool{}, stuck: map[int]bool{}, errInj: errors.New("injected failure"),
 	}
 	w.ctx, w.cancel = context.WithCancel(context.Background())
+	w.t0 = time.Now()
+	w.skew = clockSkews[worldSeq%len(clockSkews)]
+	worldSeq++
 	return w
+}
+
+// since: a clock reading as nanoseconds since the world was created (hex of the int64's bits)
+func (w *world) since(t time.Time) string {
+	return fmt.Sprintf("%x", uint64(t.Sub(w.t0).Nanoseconds()))
 }
 
 func (w *world) reg(tid int) {
@@ -195,10 +212,10 @@ func (n *fakeNode) ReceivedMessage(id uint32) (canrunner.ReceivedMessage, bool) 
 
 // ---------------------------------------------------------------- fake clock
 
-type fakeClock struct{ now time.Time }
+type fakeClock struct{ skew time.Duration }
 
 func (c *fakeClock) After(time.Duration) <-chan time.Time { return make(chan time.Time) }
-func (c *fakeClock) Now() time.Time                       { return c.now }
+func (c *fakeClock) Now() time.Time                       { return time.Now().Add(c.skew) }
 func (c *fakeClock) NewTicker(d time.Duration) clock.Ticker {
 	panic("the runner is not expected to create tickers through the clock")
 }
@@ -218,7 +235,33 @@ type rxItem struct {
 	hookLock bool
 	end      bool
 	endErr   bool
+	// shape of the frame: a remote frame, an extended frame or a frame of the wrong length with the
+	// ID of a received (standard, 8 byte) message is what the generated UnmarshalFrame rejects; the
+	// runner has to treat it like every other frame with a known ID (lock, hook lookup, receive
+	// time, unmarshal - which fails -, unlock)
+	remote   bool
+	extended bool
+	badLen   bool
 }
+
+func (it rxItem) malformed() bool { return it.remote || it.extended || it.badLen }
+
+// malformedShape: the k-th way of being a frame the message does not accept.
+func malformedShape(it rxItem, k int) rxItem {
+	switch k % 4 {
+	case 0:
+		it.remote = true
+	case 1:
+		it.extended = true
+	case 2:
+		it.badLen = true
+	default:
+		it.unmFail = true
+	}
+	return it
+}
+
+var shapeSeq int
 
 type fakeRx struct {
 	w      *world
@@ -232,6 +275,11 @@ func (r *fakeRx) Receive() bool {
 	it := rxItem{end: true}
 	if r.w.dir != nil {
 		it = rxItem{id: 0x10, end: !r.w.dir.pop(false)}
+		if !it.end && r.w.dir.nextUnmarshalFails(t) {
+			// the model trace lets UnmarshalFrame fail for this frame: give it one of the shapes that do
+			it = malformedShape(it, shapeSeq)
+			shapeSeq++
+		}
 	} else if r.pos < len(r.script) {
 		it = r.script[r.pos]
 		r.pos++
@@ -246,7 +294,10 @@ func (r *fakeRx) Frame() can.Frame {
 	t := r.w.point("RF")
 	r.w.emit(fmt.Sprintf("RF.%x", t))
 	r.w.stepDone()
-	f := can.Frame{ID: r.cur.id, Length: 8}
+	f := can.Frame{ID: r.cur.id, Length: 8, IsRemote: r.cur.remote, IsExtended: r.cur.extended}
+	if r.cur.badLen {
+		f.Length = 3
+	}
 	if r.cur.unmFail {
 		f.Data[0] |= 1
 	}
@@ -304,6 +355,7 @@ func (w *world) hook(n *fakeNode, fail func() bool, lock func() bool, mut int) f
 			w.point("HR")
 			f := !w.dir.pop(true)
 			w.emit(fmt.Sprintf("HR.%x.%s", t, b01(!f)))
+			w.stampHookRet(t)
 			w.stepDone()
 			if f {
 				return w.errInj
@@ -324,11 +376,20 @@ func (w *world) hook(n *fakeNode, fail func() bool, lock func() bool, mut int) f
 		f := fail()
 		w.point("HR")
 		w.emit(fmt.Sprintf("HR.%x.%s", t, b01(!f)))
+		w.stampHookRet(t)
 		w.stepDone()
 		if f {
 			return w.errInj
 		}
 		return nil
+	}
+}
+
+// stampHookRet: system clock reading of transmitter t while its before-transmit hook is about to
+// return (taken inside the hook, so it is not later than the return)
+func (w *world) stampHookRet(t int) {
+	if m := w.msgs[t]; m != nil {
+		m.hookRetAt = time.Now()
 	}
 }
 
@@ -357,7 +418,8 @@ func (m *fakeRxMsg) AfterReceiveHook() func(context.Context) error {
 func (m *fakeRxMsg) SetReceiveTime(time.Time) { m.access("time") }
 func (m *fakeRxMsg) UnmarshalFrame(f can.Frame) error {
 	m.last = f
-	fail := f.Data[0]&1 != 0
+	// the rule of the generated UnmarshalFrame for a standard 8 byte message, plus the scripted failure
+	fail := f.Data[0]&1 != 0 || f.IsRemote || f.IsExtended || f.Length != 8
 	m.accessf(func() string {
 		if m.w.dir != nil {
 			fail = !m.w.dir.pop(true)
@@ -380,23 +442,24 @@ func (m *fakeRxMsg) Descriptor() *descriptor.Message {
 // ---------------------------------------------------------------- fake transmitted message
 
 type fakeTxMsg struct {
-	w        *world
-	n        *fakeNode
-	tid      int
-	desc     *descriptor.Message
-	flag     bool
-	token    bool // the harness believes a token is in the wake-up channel
-	content  int
-	wakeCh   chan struct{} // the real thing: capacity one, filled by a non-blocking send
-	evOut    chan struct{}
-	gotWake  bool
-	lastFlag bool // the previous access was the flag read (=> the next Unlock parks the loop)
-	hookN    int
-	txN      int
-	lastXok  bool
-	hookFail map[int]bool // k-th hook invocation fails
-	hookLock map[int]bool // k-th hook invocation takes the lock and mutates
-	txFail   map[int]bool // k-th TransmitFrame fails
+	w         *world
+	n         *fakeNode
+	tid       int
+	desc      *descriptor.Message
+	flag      bool
+	token     bool // the harness believes a token is in the wake-up channel
+	content   int
+	wakeCh    chan struct{} // the real thing: capacity one, filled by a non-blocking send
+	evOut     chan struct{}
+	gotWake   bool
+	lastFlag  bool // the previous access was the flag read (=> the next Unlock parks the loop)
+	hookN     int
+	hookRetAt time.Time // system clock when the hook of the transmission being served returned
+	txN       int
+	lastXok   bool
+	hookFail  map[int]bool // k-th hook invocation fails
+	hookLock  map[int]bool // k-th hook invocation takes the lock and mutates
+	txFail    map[int]bool // k-th TransmitFrame fails
 }
 
 // access: the state the method reads is read when the step is granted, not when the call arrives
@@ -459,7 +522,12 @@ type fakeTx struct {
 	m *fakeTxMsg
 }
 
-func (x *fakeTx) TransmitFrame(_ context.Context, f can.Frame) error {
+// TransmitFrame also records the deadline of the context it is handed, as a DL token right after
+// the X token:  DL.t.<hook return>.<call>.<deadline|none>  (nanoseconds since the world's origin).
+// The model (RunLts.v) demands  hook return + sendTimeout <= deadline <= call + sendTimeout.
+func (x *fakeTx) TransmitFrame(ctx context.Context, f can.Frame) error {
+	callAt := time.Now()
+	dl, hasDl := ctx.Deadline()
 	t := x.w.point("X")
 	x.m.txN++
 	fail := x.m.txFail[x.m.txN]
@@ -468,6 +536,11 @@ func (x *fakeTx) TransmitFrame(_ context.Context, f can.Frame) error {
 	}
 	v := int(f.Data[0]) | int(f.Data[1])<<8
 	x.w.emit(fmt.Sprintf("X.%x.%x.%s", t, v, b01(!fail)))
+	dls := "none"
+	if hasDl {
+		dls = x.w.since(dl)
+	}
+	x.w.emit(fmt.Sprintf("DL.%x.%s.%s.%s", t, x.w.since(x.m.hookRetAt), x.w.since(callAt), dls))
 	x.m.lastFlag = false
 	x.m.lastXok = !fail
 	x.w.stepDone()
@@ -499,7 +572,7 @@ func (w *world) startReceiver(tid int, n *fakeNode, script []rxItem) {
 	w.rx = &fakeRx{w: w, script: script}
 	go func() {
 		w.reg(tid)
-		err := canrunner.RunMessageReceiver(w.ctx, w.rx, n, &fakeClock{})
+		err := canrunner.RunMessageReceiver(w.ctx, w.rx, n, &fakeClock{skew: w.skew})
 		w.finish(tid, err)
 	}()
 }
@@ -507,7 +580,7 @@ func (w *world) startReceiver(tid int, n *fakeNode, script []rxItem) {
 func (w *world) startTransmitter(tid int, n *fakeNode, m *fakeTxMsg) {
 	go func() {
 		w.reg(tid)
-		err := canrunner.RunMessageTransmitter(w.ctx, &fakeTx{w: w, m: m}, n, m, &fakeClock{})
+		err := canrunner.RunMessageTransmitter(w.ctx, &fakeTx{w: w, m: m}, n, m, &fakeClock{skew: w.skew})
 		w.finish(tid, err)
 	}()
 }
